@@ -342,7 +342,7 @@ def check_run(res, canon, dom, cl, meas, total, oracle, iters, out, viol_cap):
         if oracle == 'pairwise' and cls == 'AttributeError' and "'damping'" in msg:
             key = 'local:pairwise-damping'
         else:
-            key = f'local:exception:{cls}'
+            key = f'local:exception:{cls}:{oracle}'
         viol_cap('failing-input', f'LocalInference(marginal_oracle={oracle!r}, iters={iters}).estimate raises {cls}: {msg} '
                  f'(cliques {cl}, total {total})', dict(rp, exception=[cls, msg]), key)
         return None
@@ -364,12 +364,16 @@ def check_run(res, canon, dom, cl, meas, total, oracle, iters, out, viol_cap):
             return None
         bad = rggen.validity({proj: (list(proj), [float(v) for v in f.values.flatten()])}, T, 1e-9)
         if bad:
-            viol_cap('failing-input', f'oracle {oracle!r}, iters {iters}, total {T}: {bad} (cliques {cl})',
-                     dict(rp, observed=[float(v) for v in f.values.flatten()]), f'local:{oracle}:invalid-table')
+            mm = rggen.max_abs_message(model)
+            viol_cap('failing-input', f'oracle {oracle!r}, iters {iters}, total {T}: {bad} (cliques {cl}); largest |message| {mm:.3e}',
+                     dict(rp, observed=[float(v) for v in f.values.flatten()]),
+                     f'local:{oracle}:invalid-table' + (':diverged-messages' if not (mm < rggen.DIVERGED) else ''))
             return None
     bad = rggen.validity(rggen.table(model.marginals), T, 1e-9)
     if bad:
-        viol_cap('failing-input', f'oracle {oracle!r}, iters {iters}, total {T}: model.marginals: {bad}', rp, f'local:{oracle}:invalid-table')
+        mm = rggen.max_abs_message(model)
+        viol_cap('failing-input', f'oracle {oracle!r}, iters {iters}, total {T}: model.marginals: {bad}; largest |message| {mm:.3e}', rp,
+                 f'local:{oracle}:invalid-table' + (':diverged-messages' if not (mm < rggen.DIVERGED) else ''))
         return None
     # fit no worse than the uniform start
     from mbi import CliqueVector
